@@ -119,10 +119,12 @@ class Parser:
 
 
 class Env:
-    """vars: name -> CV; strs: name -> (len CV, z3 array, declared size); last: CV or None"""
+    """vars: name -> CV; strs: name -> (len CV, z3 array, declared size); last: CV or None;
+    unsafe: -funsafe-string-indexing is selected (an index outside the string is outside the claim instead of reading 0)"""
 
-    def __init__(self, vars_, strs, last):
-        self.vars, self.strs, self.last = vars_, strs, last
+    def __init__(self, vars_, strs, last, unsafe=False):
+        self.vars, self.strs, self.last, self.unsafe = vars_, strs, last, unsafe
+        self.oob = []   # unsafe mode: the conditions (under their evaluation guards) under which some index is outside its string
 
 
 def evaluate(ast, env, ub):
@@ -145,6 +147,11 @@ def evaluate(ast, env, ub):
         inr = z3.And(i64 >= 0, i64 < size)
         # content beyond the current length is unspecified (see absm): excluded like undefined behaviour
         ub.add(z3.And(inr, i64 > z3.ZeroExt(64 - ln.v.size(), ln.v)))
+        if env.unsafe:
+            # unchecked indexing: the property speaks about in-range indexes only; the value of an in-range read is the same
+            # stored byte 0..255 as in the checked mode, whatever element type the buffer has
+            ub.add(z3.Not(inr))
+            env.oob.append(ub.conds[-1])
         return C.promote(CV(z3.If(inr, z3.Select(arr, i64), z3.BitVecVal(0, 8)), C.U8))
     if k == 'un':
         x = evaluate(ast[2], env, ub)
